@@ -2,7 +2,7 @@
 (* constant definitions for the configurations of Lock.tla *)
 EXTENDS Lock
 RemotesNone == {{}}
-RemotesSome == {{}, {[o |-> 0, t |-> 0, x |-> TRUE]}, {[o |-> 0, t |-> 0, x |-> FALSE]}}
+RemotesSome == {{}, {[o |-> 0, t |-> 0, x |-> TRUE, g |-> 0]}, {[o |-> 0, t |-> 0, x |-> FALSE, g |-> 0]}}
 NoFaults    == {}
 ReadFaults  == {"List", "Load"}
 AllFaults   == {"List", "Load", "Save", "Remove"}
